@@ -101,7 +101,7 @@ func C02(c *ev.Ctx) {
 	}
 	rr := rng(c, 2)
 	perPkg := 9
-	npk := c.Pick(16, 160)
+	npk := c.Pick(16, 480)
 	if need := len(goosegen.Catalogue)/perPkg + 4; npk < need {
 		npk = need // every catalogue construct at least once in every run
 	}
